@@ -534,3 +534,6 @@ def check(ctx):
     r2_who_builds_cookies(ctx)
     r3_attribute_plumbing(ctx)
     r4_debug_closure(ctx)
+
+
+CLAUSE += "; the Set-Cookie values are the processor's output, never edited after process_outgoing"
